@@ -206,6 +206,10 @@ def rule_kept_in_place(check):
                 continue
             if vs_ == {"_"}:
                 continue
+            # what stays where it was ends up as an operand of the rebuilt `left + right` (`x += y` becomes
+            # `x = hook(x + y, ..)`), which the printer does not parenthesise: only kinds that can stand there
+            low_ = vs_ & {"Arrow", "Yield", "Assign", "Cond", "Seq"}
+            check.expect(not low_, R, "%s/grammar/%s" % (R, "+".join(sorted(vs_))), hir.loc(a_["body"]), "operand kinds left in place can stand as an operand of `+` without parentheses", "operand kind(s) %s are left in place: `s += x => x` is rebuilt as the binary `s + x => x`, which is printed without parentheses and does not parse" % sorted(low_))
             guard_keep = "guard" in a_ and "Keep" in hir.describe(a_["guard"])
             if not keeps and check.prop != "C01":
                 continue  # evaluation order is C01's business
@@ -436,16 +440,26 @@ def rule_call_signature(check):
     mem = [n for n in hir.walk(g.body) if n.get("k") == "Struct" and (n["res"].get("path") or "").endswith("MemberExpr")]
     ok = len(mem) == 1 and all(r[0] == "param" and r[2] == 1 for r, p in pv.origins(g, [x["e"] for x in mem[0]["fields"] if x["name"] == "obj"][0]))
     check.expect(ok, R, R + "/member-obj", hir.loc(g.rec), "callee member object = the identifier passed in", "replace_call_callee_and_args builds the callee from something else than its ident_callee_expr parameter")
-    fe = [n for n in hir.calls_in(g.body, name="for_each")]
+    # the loop over the arguments, in replace_call_callee_and_args itself or in a helper it hands `.args` to
+    fl_ = prog.flat(g, 2)
+    fe = [(h, n) for h in fl_ for n in hir.calls_in(h.body, name="for_each") if any(hir.is_call(m) and (hir.callee_name(m) or "") == "replace_expressions_in_expr_or_spread" for a_ in hir.call_args(n)[1:] for m in hir.walk(a_))]
+    fe = [(h, n) for h, n in fe if h is g or (h.name or "") != "replace_expressions_in_expr"]
     ok = len(fe) == 1
+    chain = []
     if ok:
-        chain = []
-        x = hir.peel(hir.call_args(fe[0])[0])
+        h, n0 = fe[0]
+        x = hir.peel(hir.call_args(n0)[0])
         while x.get("k") == "MethodCall":
             chain.append(x["method"])
             x = hir.peel(x["recv"])
-        ok = chain == ["iter_mut"] and (hir.place(x) or "").endswith(".args")
-    check.expect(ok, R, R + "/all-args-in-order", hir.loc(g.rec), "every call argument is processed, in order", "call arguments are not all processed in order (%s)" % (chain if fe else "no for_each"))
+        src_ok = (hir.place(x) or "").endswith(".args")
+        lx = hir.local_of(x)
+        if not src_ok and h is not g and lx and h.bindings()[lx[0]]["origin"][0] == "param":
+            pi = h.bindings()[lx[0]]["origin"][1]
+            sites = [c_ for c_ in hir.calls_in(g.body) if prog.resolve_local(c_) is h]
+            src_ok = bool(sites) and all(len(hir.call_args(c_)) > pi and (hir.place(hir.peel_transparent(hir.call_args(c_)[pi])) or "").endswith(".args") for c_ in sites)
+        ok = chain == ["iter_mut"] and src_ok
+    check.expect(ok, R, R + "/all-args-in-order", hir.loc(g.rec), "every call argument is processed, in order", "call arguments are not all processed in order (%s)" % (chain if fe else "no for_each over the arguments"))
     # .apply(this, [a, b]) reports a and b; .call reports the arguments as they are
     ifs = [n for n in hir.walk(g.body) if n.get("k") == "If"]
     ok = False
@@ -1478,7 +1492,7 @@ def _param_view(f, b, depth=0):
     o = b["origin"]
     if o[0] == "param":
         return True
-    if depth > 6 or o[0] not in ("match", "let") or o[1] is None:
+    if depth > 6 or o[0] not in ("match", "let") or o[1] is None or _has_copy(o[1]):
         return False
     src = hir.peel_transparent(o[1])
     while src.get("k") == "MethodCall" and src["method"] in ("as_mut", "as_deref_mut", "as_mut_slice", "iter_mut", "unwrap", "expect", "as_mut_array", "as_mut_expr"):
@@ -1494,6 +1508,213 @@ def _param_view(f, b, depth=0):
     if o[0] == "let" and hir.peel(o[1]).get("k") in ("Call", "MethodCall") and hir.peel(o[1]) is src:
         return False
     return _param_view(f, b2, depth + 1)
+
+
+_HOFS = {"for_each", "all", "any", "map", "filter", "filter_map", "find", "find_map", "position", "map_while", "take_while", "skip_while", "inspect", "try_for_each", "fold", "flat_map", "retain", "retain_mut", "for_each_mut"}
+_ADAPTERS = {"iter", "iter_mut", "into_iter", "by_ref", "rev", "flatten", "skip", "take", "enumerate", "map", "filter", "filter_map", "map_while", "take_while", "skip_while", "zip", "chain", "as_mut", "as_deref_mut", "peekable", "inspect"}
+
+
+def _has_copy(e):
+    """the expression goes through a copy (clone / to_owned / to_vec ...): what it denotes is the function's own"""
+    cur = e
+    for _ in range(12):
+        if cur is None:
+            return False
+        k = cur.get("k")
+        if k == "MethodCall":
+            if cur["method"] in ("clone", "to_owned", "to_vec", "cloned", "to_string", "take", "into"):
+                return True
+            cur = cur["recv"]
+        elif k in ("Field", "Index", "Unary", "AddrOf", "Deref", "DropTemps", "Use", "Cast"):
+            cur = cur.get("x") or cur.get("e")
+        elif k == "Call":
+            return (hir.callee_name(cur) or "") in ("clone", "from", "new")
+        else:
+            return False
+    return False
+
+
+def _mut_view_of_param(f, e, depth=0):
+    """does expression e denote (a mutable view into) an AST node that f received through a parameter?
+    places rooted in a parameter, pattern bindings over them, and the elements handed to a closure by an
+    iterator chain over them"""
+    if depth > 6:
+        return False
+    if _has_copy(e):
+        return False
+    e = hir.peel_transparent(e)
+    while e.get("k") == "MethodCall" and e["method"] in ("as_mut", "as_deref_mut", "unwrap", "expect", "as_mut_slice"):
+        e = hir.peel_transparent(e["recv"])
+    pl = hir.place(e) or ""
+    root = pl.split(".")[0]
+    if "#" not in root or not root.split("#")[1].isdigit():
+        return False
+    b = f.bindings().get(int(root.split("#")[1]))
+    if b is None:
+        return False
+    o = b["origin"]
+    if o[0] == "closure_param":
+        call = f.parent(o[1])
+        while call is not None and call.get("k") != "MethodCall":
+            call = f.parent(call)
+        if call is None or call["method"] not in _HOFS:
+            return False
+        src = hir.peel_transparent(call["recv"])
+        while src.get("k") == "MethodCall" and src["method"] in _ADAPTERS:
+            src = hir.peel_transparent(src["recv"])
+        return _mut_view_of_param(f, src, depth + 1)
+    return _param_view(f, b)
+
+
+def _cond_key(c):
+    if c["t"] == "pat":
+        return ("pat", hir.place(c.get("scrut") or {}) or (c.get("scrut") or {}).get("id"), str(hir.pat_variant(c["pat"])))
+    if c["t"] == "bool":
+        return ("bool", (c.get("e") or {}).get("id"))
+    return None
+
+
+_NOT_WRITES = {"clone", "span", "as_mut", "as_ref", "len", "is_empty", "iter", "get", "first", "last", "contains", "eq_ignore_span"}
+
+
+def _decline_exits(f):
+    """nodes at which f produces a declining answer: TransformResult::not_modified(), and - for functions
+    that return Option / bool - a `None` / `false` in return position"""
+    out = [n for n in f.nodes() if hir.is_call(n) and hir.callee_name(n) == "not_modified"]
+    ret = f.rec.get("ret") or ""
+    if ret.startswith("std::option::Option<") or ret == "bool":
+        for _conds, v in hir.decision_paths(f.body):
+            if v is None:
+                continue
+            v = hir.peel(v)
+            if ret == "bool" and v.get("k") == "Lit" and hir.lit_value(v) is False:
+                out.append(v)
+            elif ret != "bool" and v.get("k") == "Path" and (v.get("res", {}).get("ctor_path") or "").endswith("Option::None"):
+                out.append(v)
+    return out
+
+
+def _param_index_of_view(f, e, depth=0):
+    """index of the parameter of f that expression e is a mutable view of, or None"""
+    e0 = hir.peel_transparent(e)
+    pl = hir.place(e0) or ""
+    root = pl.split(".")[0]
+    if "#" not in root or not root.split("#")[1].isdigit():
+        return None
+    b = f.bindings().get(int(root.split("#")[1]))
+    seen = 0
+    while b is not None and seen < 8:
+        seen += 1
+        o = b["origin"]
+        if o[0] == "param":
+            return o[1]
+        if o[0] in ("match", "let") and o[1] is not None:
+            src = hir.peel_transparent(o[1])
+        elif o[0] == "closure_param":
+            call = f.parent(o[1])
+            while call is not None and call.get("k") != "MethodCall":
+                call = f.parent(call)
+            if call is None:
+                return None
+            src = hir.peel_transparent(call["recv"])
+            while src.get("k") == "MethodCall" and src["method"] in _ADAPTERS:
+                src = hir.peel_transparent(src["recv"])
+        else:
+            return None
+        while src.get("k") == "MethodCall" and src["method"] in ("as_mut", "as_deref_mut", "unwrap", "expect", "as_mut_slice", "iter_mut"):
+            src = hir.peel_transparent(src["recv"])
+        pl = hir.place(src) or ""
+        root = pl.split(".")[0]
+        if "#" not in root or not root.split("#")[1].isdigit():
+            return None
+        b = f.bindings().get(int(root.split("#")[1]))
+    return None
+
+
+def _writes_of(prog, f, memo, depth=0):
+    """[(node, what, callee-or-None)]: writes to AST nodes f received through a parameter"""
+    key = f.def_path
+    if key in memo:
+        return memo[key]
+    memo[key] = []  # cycle: assume nothing more than what is found outside the cycle
+    out = []
+    for n in f.nodes():
+        if n.get("k") in ("Assign", "AssignOp") and _mut_view_of_param(f, n["l"]) and "swc_ecma_ast" in ((hir.peel(n["l"]).get("ty") or "") + " " + (hir.peel(n["l"]).get("base_ty") or "") + " " + (n["l"].get("ty") or "")):
+            out.append((n, "an assignment into `%s`" % re.sub(r"#\d+", "", hir.place(n["l"]) or "?"), None))
+        elif hir.is_call(n) and not n.get("exp"):
+            name = hir.callee_name(n) or n.get("method") or ""
+            if name.startswith("visit_") or name in _ADAPTERS or name in _HOFS or name in _NOT_WRITES:
+                continue
+            for a in hir.call_args(n):
+                # the type the callee receives (after auto-ref / reborrow adjustments)
+                ty = a.get("aty") or a.get("ty") or hir.peel(a).get("ty") or ""
+                if not (ty.startswith("&mut ") and "swc_ecma_ast" in ty):
+                    continue
+                if not _mut_view_of_param(f, a):
+                    continue
+                g = prog.resolve_local(n)
+                if g is not None and g.body is not None and depth < 4 and not _writes_of(prog, g, memo, depth + 1) and g.def_path != f.def_path:
+                    break  # the helper only reads it
+                out.append((n, "%s(..) receives a `&mut` view of `%s`" % (name, re.sub(r"#\d+", "", hir.place(hir.peel_transparent(a)) or "?")), g))
+                break
+    memo[key] = out
+    return out
+
+
+def _violations_nmu(prog, f, memo, vmemo, depth=0):
+    """[(write node, what, exit node)] - writes of f that a declining answer can follow"""
+    key = f.def_path
+    if key in vmemo:
+        return vmemo[key]
+    vmemo[key] = []
+    exits = _decline_exits(f)
+    out = []
+    if exits:
+        order = {n["id"]: i for i, n in enumerate(f.nodes())}
+        for w, what, g in _writes_of(prog, f, memo):
+            if g is not None and g.def_path != f.def_path:
+                # a helper that answers for itself (Option / bool / TransformResult) and never declines after
+                # writing: its answer tells whether it wrote, provided it is asked once and its answer is used
+                ret = g.rec.get("ret") or ""
+                answers = ret.startswith("std::option::Option<") or ret == "bool" or "TransformResult" in ret
+                inside = any(a.get("k") in ("Closure", "Loop") for a in f.ancestors(w))
+                par = f.parent(w)
+                discarded = par is not None and par.get("k") == "Block" and any(st.get("k") in ("Semi", "Expr") and st.get("e") is w for st in par.get("stmts", []))
+                if answers and not inside and not discarded and depth < 4 and not _violations_nmu(prog, g, memo, vmemo, depth + 1):
+                    continue
+            wk = {}
+            for c in f.conds_at(w):
+                k = _cond_key(c)
+                if k:
+                    wk[k] = c["v"]
+            for x in exits:
+                if order.get(x.get("id"), -1) < order[w["id"]]:
+                    continue
+                if any(_cond_key(c) in wk and wk[_cond_key(c)] != c["v"] for c in f.conds_at(x)):
+                    continue
+                out.append((w, what, x))
+                break
+    vmemo[key] = out
+    return out
+
+
+def rule_not_modified_untouched(check):
+    """NOT-MODIFIED-UNTOUCHED (C01, C02): a transform that declines has not written to the node it was handed:
+    its caller keeps that node and prints it as the original code"""
+    R = "NOT-MODIFIED-UNTOUCHED"
+    check.rule(R, "in every transform function, no write to the AST node received through a parameter (an assignment into it, a call that receives a `&mut` view of it - directly, through a pattern binding or an iterator chain - and can write; handing it to the visitors excepted) can be followed, on the same path, by a declining answer (not_modified(), or None / false in helpers): the caller keeps the node, so a half-applied replacement - operands already swapped for temporaries whose assignments are then thrown away - is printed as if it were the input. A helper that never declines after writing is trusted to tell through its answer whether it wrote (asked once, answer used)")
+    prog = check.prog
+    memo, vmemo = {}, {}
+    n_fn = n_w = 0
+    for f in xform_fns(prog):
+        if f.rec.get("gen") or f.body is None or not _decline_exits(f):
+            continue
+        n_fn += 1
+        n_w += len(_writes_of(prog, f, memo))
+        for w, what, x in _violations_nmu(prog, f, memo, vmemo):
+            check.bad(R, "%s/%s" % (R, f.name), hir.loc(w), "%s: %s, and the path can go on to a declining answer (%s): the caller keeps the node with that write in it and prints it as untouched code" % (f.name, what, hir.loc(x)))
+    check.floor(R, "transform functions with a declining answer", n_fn, 5)
+    check.ok(R, R + "/inventory", "-", "%d writes to received nodes in %d transform functions that can decline, none followed by a declining answer" % (n_w, n_fn))
 
 
 def rule_input_untouched(check):
